@@ -287,6 +287,9 @@ var c19Doctypes = []string{
 	`<!DOCTYPE html SYSTEM 'about:legacy-compat'>`, `<!DOCTYPE html SYSTEM "a>b">`, "<!DOCTYPE  html >",
 }
 
+var c19Rcdata = []string{"t", "plain words", "a &amp; b", "Using &amp;amp; and &amp;lt; in HTML", "Write &amp;copy; for the sign", "x &lt; y &gt; z",
+	"&amp;lt;/textarea&amp;gt;&amp;lt;script&amp;gt;x()&amp;lt;/script&amp;gt;", "&lt;/title&gt; is how a title ends", "Q&amp;amp;A", "&amp;#38; twice"}
+
 func c19Generate(g *srcGen) string {
 	g.n = 0
 	var sb strings.Builder
@@ -295,7 +298,7 @@ func c19Generate(g *srcGen) string {
 	}
 	full := g.r.Intn(8) == 0
 	if full {
-		sb.WriteString(c19Doctypes[g.r.Intn(len(c19Doctypes))] + "\n<html><head><title>t</title></head><body>")
+		sb.WriteString(c19Doctypes[g.r.Intn(len(c19Doctypes))] + "\n<html><head><title>" + c19Rcdata[g.r.Intn(len(c19Rcdata))] + "</title></head><body>")
 	}
 	texts := []string{"word", "two words", "a &lt; b", "x &amp; y", "{{ a < b }}", "{{ x > 1 && y }}", "{{ name }}", "1 &gt; 0", "&copy; 2024", "{{ a & b }} tail",
 		// braces that do not form a mustache, next to character references: the text after them is still text
@@ -305,8 +308,12 @@ func c19Generate(g *srcGen) string {
 	var block func(d int, inline bool) string
 	block = func(d int, inline bool) string {
 		g.n++
-		t := []string{"div", "p", "section", "ul", "h1", "span", "b", "a", "pre", "script", "style", "table"}[g.r.Intn(12)]
+		t := []string{"div", "p", "section", "ul", "h1", "span", "b", "a", "pre", "script", "style", "table", "textarea"}[g.r.Intn(13)]
 		switch t {
+		case "textarea":
+			// <textarea> and <title> hold text in which character references ARE decoded: text that spells a reference, or the element's own
+			// end tag, has to be written escaped again
+			return "<textarea name=\"t\">" + c19Rcdata[g.r.Intn(len(c19Rcdata))] + "</textarea>"
 		case "script":
 			// raw text is never escaped, whether the author wrote it on lines of its own or on the line of the tags
 			return []string{"<script>\n  if (a < b && c > d) { x = \"</div>\"; }\n</script>", "<script>if (a < b && c > d) { go(); }</script>", "<script>items.forEach(i => init(i));</script>", "<script>lucide.createIcons();</script>"}[g.r.Intn(4)]
